@@ -103,6 +103,7 @@ TraceSetAt == /\ Step("SetAt")
                    /\ e.off >= 0 /\ e.off + w <= Len(e.before)
                    /\ e.after = [i \in 1..Len(e.before) |->
                                    IF i > e.off /\ i <= e.off + w THEN Enc(e.op, e.v)[i - e.off] ELSE e.before[i]]
+                   /\ (Has(e, "ret") => e.ret = e.after)      \* the slice handed back is the buffer
               /\ UNCHANGED kvars
 
 \* every invariant of DataX is re-evaluated on the state after each event
